@@ -19,6 +19,7 @@ import (
 	"strconv"
 	"strings"
 	"sync"
+	"sync/atomic"
 	"testing"
 	"time"
 
@@ -28,6 +29,7 @@ import (
 	"github.com/ethereum/go-ethereum/common"
 	"github.com/ethereum/go-ethereum/core/types"
 	"github.com/ethereum/go-ethereum/crypto"
+	"github.com/ethereum/go-ethereum/rpc"
 	bidderregistry "github.com/primevprotocol/contracts-abi/clients/BidderRegistry"
 	providerregistry "github.com/primevprotocol/contracts-abi/clients/ProviderRegistry"
 	bidderapiv1 "github.com/primevprotocol/mev-commit/gen/go/bidderapi/v1"
@@ -89,6 +91,11 @@ type c11In struct {
 	// parks at entry until all calls have arrived, then the Sends read their request and return
 	// in this order (indices into Steps)
 	Order []int `json:"order,omitempty"`
+	// viawrite: stake / prepay through a real evmclient.EvmClient over a scripted chain node.
+	// Send.Err != 0: the node refuses the transaction.  Wait: what the chain holds for it
+	// ("receipt" with Status, "notfound": dropped, "never": nothing while the caller waits).
+	// Late: the client's own watcher gets the outcome before the registry starts to wait.
+	Late bool `json:"late,omitempty"`
 }
 
 // ---- observation ------------------------------------------------------------------------------
@@ -115,6 +122,7 @@ type c11Obs struct {
 	Packed *string      `json:"packed,omitempty"`
 	Vals   *[]c11AbiVal `json:"vals,omitempty"`
 	Steps  []c11Obs     `json:"steps,omitempty"`
+	TxHash string       `json:"tx_hash,omitempty"` // viawrite: hash of the transaction the node received
 }
 
 // ---- scripted evm client ----------------------------------------------------------------------
@@ -369,6 +377,9 @@ func (ev *c11Env) run(in c11In) (obs c11Obs) {
 	if in.Op == "concurrent" {
 		return ev.runConcurrent(in, regAddr, logger)
 	}
+	if in.Op == "viawrite" {
+		return ev.runViaWrite(in, regAddr, logger)
+	}
 	if in.ViaEvm {
 		// the production path: registry -> evmclient.EvmClient.Call -> EVM.CallContract
 		pk, err := crypto.GenerateKey()
@@ -567,6 +578,151 @@ func (ev *c11Env) runConcurrent(in c11In, regAddr common.Address, logger *slog.L
 		}
 		obs.Steps = append(obs.Steps, c11Obs{Trace: tr, Reg: &code})
 	}
+	return obs
+}
+
+// c11ViaClient is the real evm client as the registry gets it, with the caller's scheduling
+// scripted: early = the registry's wait is registered before the chain shows the transaction;
+// late = the client's own watcher has processed the outcome before the registry's wait starts.
+type c11ViaClient struct {
+	*evmclient.EvmClient
+	late   bool
+	never  bool
+	mined  *atomic.Bool
+	settle time.Duration
+	limit  time.Duration
+	mu     sync.Mutex
+	waits  []c11Eff
+}
+
+func (c *c11ViaClient) WaitForReceipt(ctx context.Context, h common.Hash) (*types.Receipt, error) {
+	c.mu.Lock()
+	c.waits = append(c.waits, c11Eff{K: "wait", Hash: hex.EncodeToString(h.Bytes())})
+	c.mu.Unlock()
+	if c.late {
+		// positive synchronisation: the client no longer lists the transaction as pending
+		deadline := time.Now().Add(c.limit)
+		for time.Now().Before(deadline) {
+			listed := false
+			for _, p := range c.EvmClient.PendingTxns() {
+				if common.HexToHash(p.Hash) == h {
+					listed = true
+				}
+			}
+			if !listed {
+				break
+			}
+			time.Sleep(5 * time.Millisecond)
+		}
+		return c.EvmClient.WaitForReceipt(ctx, h)
+	}
+	if c.never {
+		wctx, cancel := context.WithTimeout(ctx, 2*c.settle)
+		defer cancel()
+		return c.EvmClient.WaitForReceipt(wctx, h)
+	}
+	// early: the chain shows the transaction only after this wait has been registered
+	go func() {
+		time.Sleep(c.settle)
+		c.mined.Store(true)
+	}()
+	return c.EvmClient.WaitForReceipt(ctx, h)
+}
+
+func (ev *c11Env) runViaWrite(in c11In, regAddr common.Address, logger *slog.Logger) (obs c11Obs) {
+	obs.Trace = []c11Eff{}
+	slow := 1
+	if v, err := strconv.Atoi(os.Getenv("VERIF_SLOW")); err == nil && v > 0 {
+		slow = v
+	}
+	pk, err := crypto.GenerateKey()
+	if err != nil {
+		panic(err)
+	}
+	ks := mockkeysigner.NewMockKeySigner(pk, crypto.PubkeyToAddress(pk.PublicKey))
+	const nonce = 5
+	var (
+		mu     sync.Mutex
+		sent   []c11Eff
+		txHash string
+		mined  atomic.Bool
+		block  atomic.Uint64
+	)
+	mined.Store(in.Late)
+	evm := mockevm.NewMockEvm(1,
+		mockevm.WithPendingNonceAtFunc(func(context.Context, common.Address) (uint64, error) { return nonce, nil }),
+		mockevm.WithEstimateGasFunc(func(context.Context, ethereum.CallMsg) (uint64, error) { return 50000, nil }),
+		mockevm.WithSuggestGasPriceFunc(func(context.Context) (*big.Int, error) { return big.NewInt(2000000000), nil }),
+		mockevm.WithSuggestGasTipCapFunc(func(context.Context) (*big.Int, error) { return big.NewInt(1000000000), nil }),
+		mockevm.WithSendTransactionFunc(func(_ context.Context, tx *types.Transaction) error {
+			e := c11Eff{K: "send", Data: hex.EncodeToString(tx.Data())}
+			if tx.To() != nil {
+				e.To = hex.EncodeToString(tx.To().Bytes())
+			}
+			v := tx.Value().String()
+			e.Value = &v
+			mu.Lock()
+			sent = append(sent, e)
+			txHash = hex.EncodeToString(tx.Hash().Bytes())
+			mu.Unlock()
+			if in.Send.Err != 0 {
+				return c11Error(in.Send.Err)
+			}
+			return nil
+		}),
+		mockevm.WithBlockNumFunc(func(context.Context) (uint64, error) { return block.Add(1), nil }),
+		mockevm.WithNonceAtFunc(func(context.Context, common.Address, *big.Int) (uint64, error) {
+			if mined.Load() && in.Wait.Kind != "never" {
+				return nonce + 1, nil
+			}
+			return nonce, nil
+		}),
+		mockevm.WithBatcherFunc(func(_ context.Context, elems []rpc.BatchElem) error {
+			for i := range elems {
+				if in.Wait.Kind == "notfound" {
+					elems[i].Error = ethereum.NotFound
+					continue
+				}
+				r := elems[i].Result.(*types.Receipt)
+				r.Status = in.Wait.Status
+				r.BlockNumber = big.NewInt(1)
+			}
+			return nil
+		}),
+	)
+	real, err := evmclient.New(ks, evm, logger)
+	if err != nil {
+		panic(err)
+	}
+	defer real.Close()
+	cl := &c11ViaClient{EvmClient: real, late: in.Late, never: in.Wait.Kind == "never", mined: &mined,
+		settle: time.Duration(slow) * 150 * time.Millisecond, limit: time.Duration(slow) * 5 * time.Second}
+	var r c11Registry
+	if in.Kind == 0 {
+		r = c11Prov{registrycontract.New(regAddr, cl, logger)}
+	} else {
+		r = c11Bid{bidderregistrycontract.New(regAddr, cl, logger)}
+	}
+	amt, _ := new(big.Int).SetString(*in.Amount, 10)
+	code := 0
+	func() {
+		defer func() {
+			if rec := recover(); rec != nil {
+				code = 2
+			}
+		}()
+		if err := r.register(context.Background(), amt); err != nil {
+			code = 1
+		}
+	}()
+	obs.Reg = &code
+	mu.Lock()
+	obs.Trace = append(obs.Trace, sent...)
+	obs.TxHash = txHash
+	mu.Unlock()
+	cl.mu.Lock()
+	obs.Trace = append(obs.Trace, cl.waits...)
+	cl.mu.Unlock()
 	return obs
 }
 
@@ -848,6 +1004,17 @@ func c11CoqOpRes(in c11In, obs c11Obs) (op, res string) {
 		op = coqApp("OpGetMin", c11CoqAns(pick(0), in.CtxDone))
 	case "getstake":
 		op = coqApp("OpGetStake", addr, c11CoqAns(pick(0), in.CtxDone))
+	case "viawrite":
+		sres := "SErr"
+		if in.Send.Err == 0 && obs.TxHash != "" {
+			sres = coqApp("SHash", coqBytes(c11Hex(obs.TxHash)))
+		}
+		w := "WErr"
+		if in.Wait.Kind == "receipt" {
+			w = coqApp("WReceipt", coqN(in.Wait.Status))
+		}
+		op = coqApp("OpRegisterVia", c11CoqOptZ(in.Amount), sres, w, coqBool(in.Late))
+		res = coqApp("ObsReg", coqN(uint64(*obs.Reg)))
 	case "register":
 		op = coqApp("OpRegister", c11CoqOptZ(in.Amount), c11CoqSend(in.Send, in.CtxDone), c11CoqWait(in.Wait, in.CtxDone))
 		res = coqApp("ObsReg", coqN(uint64(*obs.Reg)))
@@ -1266,6 +1433,42 @@ func TestVerifC11(t *testing.T) {
 			in.Steps = append(in.Steps, st)
 		}
 		run("via-evmclient-random", in)
+	}
+	// X. the write path through a real evmclient.EvmClient: chain outcome x timing of the
+	//    client's own watcher relative to the registry's wait.  The cases wait on the client's
+	//    500 ms poll, so they run side by side and are emitted in order.
+	var vw []c11In
+	for kind := 0; kind < 2; kind++ {
+		chain := []c11Wait{{Kind: "receipt", Status: 1}, {Kind: "receipt", Status: 0}, {Kind: "receipt", Status: 2}, {Kind: "notfound"}}
+		for _, late := range []bool{false, true} {
+			for _, w := range chain {
+				vw = append(vw, c11In{Kind: kind, Op: "viawrite", Reg: c11RandHex(r, 20), Amount: str(c11RandValue(r)), Wait: w, Late: late})
+			}
+		}
+		vw = append(vw, c11In{Kind: kind, Op: "viawrite", Reg: c11RandHex(r, 20), Amount: str(c11RandValue(r)), Wait: c11Wait{Kind: "never"}})
+		vw = append(vw, c11In{Kind: kind, Op: "viawrite", Reg: c11RandHex(r, 20), Amount: str(c11RandValue(r)),
+			Send: c11Ans{Err: 1}, Wait: c11Wait{Kind: "receipt", Status: 1}})
+	}
+	for i := 0; i < e.N/20; i++ {
+		vw = append(vw, c11In{Kind: r.Intn(2), Op: "viawrite", Reg: c11RandHex(r, 20), Amount: str(c11RandValue(r)),
+			Wait: c11Wait{Kind: "receipt", Status: uint64(r.Intn(3))}, Late: r.Intn(2) == 0})
+	}
+	vwObs := make([]c11Obs, len(vw))
+	var vwg sync.WaitGroup
+	sem := make(chan struct{}, 32)
+	for i := range vw {
+		vwg.Add(1)
+		go func(i int) {
+			defer vwg.Done()
+			sem <- struct{}{}
+			defer func() { <-sem }()
+			vwObs[i] = ev.run(vw[i])
+		}(i)
+	}
+	vwg.Wait()
+	for i := range vw {
+		in, obs := vw[i], vwObs[i]
+		e.Emit("via-evmclient-write", in, obs, func(id int) string { return ev.coq(id, in, obs) })
 	}
 	// W. overlapping stake / prepay calls with distinct amounts on one registry object
 	for kind := 0; kind < 2; kind++ {
